@@ -323,6 +323,13 @@ def run(run):
         c14.scriptsig_rules(run, PV)
     finally:
         run.rid_prefix = ""
+    # "the requested key path": which 32-bit index each element of the path text denotes (rule R2c of C02) - re-applied under the prefix G.
+    from . import c02
+    run.rid_prefix = "G."
+    try:
+        c02.bip32_element_table(run, "R2c")
+    finally:
+        run.rid_prefix = ""
     # ---------------------------------------------------------------- R5
     _reply(run, F, PV)
 
